@@ -12,7 +12,7 @@ def run(ctx):
     ctx.assumptions += [
         "virtual clock via time() interposition",
         "ties among several expired entries are left free (any expired victim is accepted)",
-        "process-shared runs use a 1 MiB segment and values <= 100 bytes: the out-of-memory deviations (dropped store, clear on bad_alloc) are not triggered by these drivers",
+        "process-shared runs under memory pressure (driver mode bigrand) are judged with the named deviations of CacheTrace.tla: extra victims (each by the rule), dropped store, clear on allocation failure",
     ]
     ctx.design("Cache/Cache.tla", "Cache08_quick.cfg" if q else "Cache08.cfg", workers=16, timeout=1500, heap="16g")
     import cacheimpl
@@ -37,6 +37,12 @@ def run(ctx):
     # large key alphabet with a limit well above 64 (hash-table growth / collisions)
     runs.append(("rand", "thread", 100, 300, 2500 if q else 20000, 1))
     runs.append(("rand", "process", 150, 300, 2500 if q else 20000, 1))
+    # process-shared cache under memory pressure (values comparable to the 1 MiB segment): a store may evict several
+    # entries / be dropped / clear the cache - every victim must still follow "expired first, then least recently used"
+    if q:
+        runs += [("bigrand", "process", 0, 12, 300, 4, 60000), ("bigrand", "process", 4, 8, 300, 4, 120000)]
+    else:
+        runs += [("bigrand", "process", lim, names, 600, 12, mx) for (lim, names, mx) in ((0, 12, 60000), (4, 8, 120000), (8, 12, 200000), (0, 6, 30000), (2, 16, 90000))]
     n = 0
     for spec in runs:
         n += 1
@@ -51,7 +57,8 @@ def run(ctx):
             ctx.seen(ln[:80])
         if n <= 3:
             ctx.sample({"driver": list(spec), "first_events": [x.strip() for x in lines[:6]]})
-        rej = ctx.validate("Cache/CacheTrace.tla", "CacheTrace_big.cfg" if spec[3] > 16 else "CacheTrace.cfg", t, dfs=True)
+        cfg = "CacheTraceP.cfg" if spec[0] == "bigrand" else ("CacheTrace_big.cfg" if spec[3] > 16 else "CacheTrace.cfg")
+        rej = ctx.validate("Cache/CacheTrace.tla", cfg, t, dfs=True)
         for x in rej:
             ctx.violation("trace08:%s" % sig(x), "cache trace not a behaviour of Cache (C08 strict) at %s" % x["event"][:160], x["path"])
         os.remove(t)
